@@ -461,6 +461,36 @@ pub fn c12(thorough: bool, replay: Option<String>) -> i32 {
         rep.add_sub("compiled-programs", &format!("{} compiled generated programs (binder chains, recursion, call chains) with symbols x 2 valuations: plain view (source form and hex form) and hierarchical view", n), n, true, capped, st);
     }
 
+    // the path family: wide / top-bit-set / sign-extended path atoms as operands, against deep environments
+    {
+        let (paths, firsts) = crate::clvmmc::path_family(thorough);
+        let nctx = 3u64;
+        let n = paths.len() as u64 * nctx;
+        let (mut st, capped) = par_range(n, 8, cap, || (0u64, 0u64), |c, st, i| {
+            let before = *c;
+            let p = &paths[(i / nctx) as usize];
+            let pa = T::A(p.clone());
+            let prog = match i % nctx {
+                0 => T::list(&[T::a(&[4]), pa, crate::oracle::quote(T::int(1))]),
+                1 => T::list(&[T::a(&[2]), crate::oracle::quote(T::list(&[T::a(&[4]), pa, T::a(&[1])])), T::a(&[1])]),
+                _ => T::list(&[T::a(&[7]), pa]),
+            };
+            let mut traces = 0;
+            for env in crate::clvmmc::path_envs(p, 6, thorough) {
+                check_program(st, &prog, &env, "paths", c);
+                traces += 2;
+            }
+            st.count("states", c.0 - before.0);
+            st.count("transitions", c.1 - before.1);
+            st.count("traces", traces);
+        });
+        rep.states += st.counters.get("states").copied().unwrap_or(0);
+        rep.transitions += st.counters.get("transitions").copied().unwrap_or(0);
+        rep.traces += st.counters.get("traces").copied().unwrap_or(0);
+        st.max_samples = 2;
+        rep.add_sub("paths", &format!("{} path atoms (all 1-byte, 2-byte with first byte in {} values x all second bytes, lengths 3..9 over boundary patterns) as operand of c, inside (a (q . (c P 1)) 1), and under l; environments: complete tree of depth 6, a tree tailored to the path's bits{}; source form and hex form", paths.len(), firsts.len(), if thorough { ", four 90-deep spines" } else { "" }), n, true, capped, st);
+    }
+
     // well-formed nested expressions: long enough traces for rows to be mis-attributed
     let es = crate::clvmmc::ExprSpace::new();
     let envs2 = vec![T::list(&[T::int(11), T::int(12), T::int(13)]), T::p(T::p(T::int(21), T::int(22)), T::p(T::nil(), T::int(24)))];
